@@ -26,6 +26,7 @@ UNIT_PROPS = {
     "fetch_ancestry": ["C02", "C01"],
     "wire_codec": ["C15"],
     "fetch_validate": ["C01"],
+    "service_inventory": ["C11"],
 }
 
 CRYPTO_GROUP = ["signature_roundtrip", "public_key_roundtrip"]
@@ -141,11 +142,11 @@ PROPS = {
         "not_decided": "Strictly-newer-than-stored is SQL (WHERE timestamp < ?) inside the store; the relayer/announcer exclusion in Service::relay is three .filter closures (outside Verus); the per-type processing after the store is an opaque stand-in (arbitrary effect, result Ok(relay)|Ok(None) assumed). serialize() and ed25519 are uninterpreted.",
     },
     "C11": {
-        "vx": ["service_gossip", "service_relay", "identity"],
+        "vx": ["service_gossip", "service_relay", "service_inventory", "identity"],
         "kx": [],
         "technique": "Verus sink precondition on Outbox::write (a refs announcement is queued for a peer only if the repository is visible to it), carried through the extracted Outbox::{relay,broadcast,announce}, Service::relay, Service::announce_refs (closure contracts written in place on the visibility filters; Iterator::filter/map by contract) and the Subscribe replay loop of Service::handle_message; Doc::is_visible_to proved against its definition",
         "explanation": "Every path in the extracted code that reaches Outbox::write with a refs announcement is proved to satisfy visible(rid, peer): the replay loop of handle_message (loop invariant), Service::relay (third filter closure proved to return true only for peers the stored document makes the repository visible to, false when the repository is unknown), Service::announce_refs (filter closure == doc.is_visible_to), Outbox::relay/broadcast/announce (loops over the peers they were given, nobody else). Doc::is_visible_to == public or allow-listed or delegate (unit identity).",
-        "not_decided": "Second sentence of C11 (private repositories never appear in an inventory announcement): Service::initialize / refresh_and_announce_inventory build the inventory from the routing table through iterator adapters and SQL -- not decided. Callers of announce_refs are assumed to pass the document of `rid`; Sessions::connected is assumed to yield (id, session) pairs with session.id == id; Iterator::filter/map/next are assumed by contract; a closure added on these paths without a contract makes the proof fail (reported as a violation of the closure's caller obligation).",
+        "not_decided": "Second sentence of C11 (private repositories never appear in an inventory announcement): decided only for the inventory message built at start-up -- Service::initialize is verified (unit service_inventory) to hand gossip::inventory a set containing only repositories whose document is public; refresh_and_announce_inventory / add_inventory rebuild the message from the routing table (SQL), whose content is outside any contract (Service::add_inventory does not itself test visibility: its callers do) -- not decided. Callers of announce_refs are assumed to pass the document of `rid`; Sessions::connected is assumed to yield (id, session) pairs with session.id == id; Iterator::filter/map/next are assumed by contract; a closure added on these paths without a contract makes the proof fail (reported as a violation of the closure's caller obligation).",
     },
     "C13": {
         "vx": ["wire_frame", "pktline", "session", "service_fetch", "service_gossip"],
